@@ -16,11 +16,24 @@ import (
 // builder appends acts to a script and keeps the bookkeeping simulator in step (with
 // predicted results), so that generators know which Reads would block.
 type builder struct {
-	s   *scriptScn
-	m   *sim
-	seq [2]int
-	bg  []int // indices of background acts not joined yet
-	aw  int   // how many of the bookkeeping's self-closed Muxes have an "await" act already
+	s    *scriptScn
+	m    *sim
+	seq  [2]int
+	bg   []int       // indices of background acts not joined yet
+	aw   int         // how many of the bookkeeping's self-closed Muxes have an "await" act already
+	late [2][]uint32 // ids opened by the script after the start
+}
+
+func (b *builder) open(side int, id uint32) {
+	b.add(act{Op: "open", Side: side, ID: id})
+	for _, x := range with(b.s.Open[side], b.late[side]...) {
+		if x == id {
+			return
+		}
+	}
+	if id != 0 {
+		b.late[side] = append(b.late[side], id)
+	}
 }
 
 func newBuilder(stream, transport string, qlen int, openA, openB []uint32) *builder {
@@ -98,8 +111,11 @@ func (b *builder) finish() *scriptScn {
 		if b.s.Raw[side] {
 			continue
 		}
-		for _, id := range b.s.Open[side] {
+		for _, id := range with(b.s.Open[side], b.late[side]...) {
 			b.add(act{Op: "drain", Side: side, ID: id})
+		}
+		for _, id := range b.late[side] {
+			b.write(side, id, 2)
 		}
 		if len(b.s.Open[side]) > 0 {
 			b.write(side, b.s.Open[side][0], 3)
@@ -506,6 +522,100 @@ func genRaw(c *hx.Ctx) []*scriptScn {
 	return out
 }
 
+// Open at any moment: after Close, after the peer closed, after a failing transport, after a Write cut
+// half-way, after an overflow, racing with Close, and on a healthy Mux.  Every call on a connection
+// opened on a closed Mux must fail promptly.
+func genOpen(c *hx.Ctx) []*scriptScn {
+	var out []*scriptScn
+	ids := []uint32{1, 2}
+	faults := []string{"close", "peerclose", "trunkclose", "peertrunkclose", "cutwrite", "overflow", "cclose"}
+	for fi, f := range faults {
+		for side := 0; side < 2; side++ {
+			for ti, transport := range []string{"pipe", "unix"} {
+				q := 256
+				if f == "overflow" {
+					q = 1
+					if transport == "unix" {
+						continue // the sync frames need the synchronous transport
+					}
+				}
+				open := [2][]uint32{ids, ids}
+				open[1-side] = with(ids, syncID)
+				b := newBuilder("muxfault_open", transport, q, open[0], open[1])
+				b.s.Note = fmt.Sprintf("Open after %s, opener side %d", f, side)
+				if f == "cutwrite" {
+					b.s.Cut[side] = 8 + 11 + 8 + 2 // two whole frames of 3 bytes go out, the third is cut inside its payload
+				}
+				if transport == "pipe" && f != "cutwrite" {
+					b.write(1-side, 1, 4)
+					b.readOrBg(side, 1)
+				}
+				switch f {
+				case "close":
+					b.add(act{Op: "close", Side: side})
+				case "peerclose":
+					b.add(act{Op: "close", Side: 1 - side})
+				case "trunkclose":
+					b.add(act{Op: "trunkclose", Side: side})
+				case "peertrunkclose":
+					b.add(act{Op: "trunkclose", Side: 1 - side})
+				case "cutwrite":
+					b.write(side, 1, 3)
+					b.write(side, 2, 3)
+					b.write(side, 1, 5)
+				case "overflow":
+					b.write(1-side, 2, 1)
+					b.write(1-side, syncID, 1)
+					b.write(1-side, 2, 2)
+					b.write(1-side, syncID, 1)
+				case "cclose":
+					// only one connection is closed: the Mux lives, a new id works, the reserved id is refused
+					b.add(act{Op: "cclose", Side: side, ID: 2})
+				}
+				b.open(side, 6+uint32(fi))
+				b.open(side, 0) // reserved: refused
+				b.open(side, 1) // open already: the same connection
+				if (fi+side+ti)%2 == 0 {
+					b.open(1-side, 6+uint32(fi))
+				}
+				if f == "cclose" && transport == "pipe" {
+					// a late connection on a healthy Mux carries data once both ends have it
+					if (fi+side+ti)%2 != 0 {
+						b.open(1-side, 6+uint32(fi))
+					}
+					b.write(1-side, 6+uint32(fi), 7)
+					b.readOrBg(side, 6+uint32(fi))
+					b.write(side, 6+uint32(fi), 0)
+					b.readOrBg(1-side, 6+uint32(fi))
+				}
+				b.readOrBg(side, 6+uint32(fi))
+				out = append(out, b.finish())
+			}
+		}
+	}
+	// racing with Close
+	for _, n := range []int{1, 2, 3, 4, 8, 16} {
+		for mode := 0; mode < 2; mode++ {
+			for rep := 0; rep < c.Pick(2, 10); rep++ {
+				for ti, transport := range []string{"pipe", "unix"} {
+					side := (n + mode + rep + ti) % 2
+					b := newBuilder("muxfault_open", transport, 256, ids, ids)
+					b.s.Note = fmt.Sprintf("%d Opens racing with Close (mode %d), side %d", n, mode, side)
+					for _, id := range ids {
+						b.readOrBg(side, id)
+					}
+					b.add(act{Op: "openrace", Side: side, ID: 100, N: n, Mode: mode})
+					for k := 0; k < n; k++ {
+						b.late[side] = append(b.late[side], 100+uint32(k))
+					}
+					out = append(out, b.finish())
+				}
+			}
+		}
+	}
+	return out
+}
+
 // ---------------------------------------------------------------- listener wrapper
 
 func genListener(c *hx.Ctx) []*scriptScn {
@@ -572,7 +682,7 @@ func driveFault(c *hx.Ctx) error {
 		f    func(*hx.Ctx) []*scriptScn
 	}{{"muxfault_cut", genCut}, {"muxfault_overflow", genOverflow}, {"muxfault_close", genClose},
 		{"muxfault_closers", genClosers}, {"muxfault_blocked", genBlocked}, {"muxfault_raw", genRaw},
-		{"muxfault_listener", genListener}}
+		{"muxfault_open", genOpen}, {"muxfault_listener", genListener}}
 	var all []*scriptScn
 	for _, sc := range corpus(c, "C11") {
 		all = append(all, sc.S)
@@ -615,6 +725,7 @@ func driveFault(c *hx.Ctx) error {
 		"muxfault_close: random two-way exchanges, and before every operation of each one of: Mux.Close, conn.Close, transport failure, three concurrent closers, at either end; the rest of the exchange is then attempted; " +
 		"muxfault_closers: 1..16 concurrent closers (Mux.Close and conn.Close mixed) at one or both ends with a blocked Read on every connection; " +
 		"muxfault_blocked: Writes towards a Mux whose reader is not unblocked yet, then close/failure/unblock; muxfault_raw (malformed): frames for unknown and reserved ids and damaged tails from a bare transport end; " +
+		"muxfault_open: Mux.Open of a new id, of the reserved id and of an open id after Close, after the peer closed, after a transport failure at either end, after a Write cut inside a payload, after a queue overflow and next to a conn.Close, at either end, and 1..16 Opens racing with Close; every Read and Write on the new connections must fail promptly on a closed Mux and carry data on a healthy one; " +
 		"muxfault_listener: every sequence of Accept/Close up to length 4 (thorough 7) on the listener wrapper. " +
 		"A cut fails the outgoing direction of one end after an exact number of bytes (the failing trunk.Write returns the n bytes that still went out); after every fault the script waits until each Mux that has to close itself has closed its trunk, so that later calls do not race with its reader. Every call runs under a 20 s bound (1 s for the rest of a scenario once a call has hung; a hung scenario is run again alone before it is reported); a script ends with Close at both ends, a drain of every connection (Reads until 64 consecutive errors) and one more Write. Non-trivial: a fault was injected and at least one call was made after it. Compared in Coq: every call's result class and payload against the model replayed on the same script (select choices taken from the observation), the recorded trunk bytes, and the property's predicate on the observation."
 	return nil
